@@ -1,0 +1,113 @@
+//go:build verif
+
+package types
+
+// Contracts checked by /verif/govc (contract-based deductive verification).
+// Comment-only: with the `verif` tag off this file is not even parsed.
+//
+// BigInt: arbitrary precision integers limited to |v| < 2^255. bigv[p] (declared in
+// /verif/contracts/trusted/05_bigint.spec) is the mathematical value of *big.Int p.
+// Every operation: a normal return gives the exact mathematical result in a fresh object,
+// within the 255-bit bound; nothing else changes.
+
+//@ pure inBig(v int) bool = 0 - pow2(255) < v && v < pow2(255)
+
+//@ func NewInt
+//@   props C41,C31,C27,C26
+//@   panics_never
+//@   modifies bigv
+//@   ensures result.i != nil && fresh(result.i) && bigv == old(bigv)[result.i := n]
+
+//@ func NewIntFromBigInt
+//@   props C41,C31
+//@   panics_unless i != nil
+//@   modifies nothing
+//@   ensures result.i == i && inBig(bigv[i])
+
+//@ func (BigInt).Int64
+//@   props C41,C31
+//@   panics_unless i.i != nil
+//@   modifies nothing
+//@   ensures result == bigv[i.i]
+
+//@ func (BigInt).Add
+//@   props C41,C27,C26
+//@   panics_unless i.i != nil && i2.i != nil
+//@   modifies bigv
+//@   ensures res.i != nil && fresh(res.i) && bigv == old(bigv)[res.i := old(bigv[i.i]) + old(bigv[i2.i])]
+//@   ensures inBig(bigv[res.i])
+
+//@ func (BigInt).Sub
+//@   props C41,C27,C26
+//@   panics_unless i.i != nil && i2.i != nil
+//@   modifies bigv
+//@   ensures res.i != nil && fresh(res.i) && bigv == old(bigv)[res.i := old(bigv[i.i]) - old(bigv[i2.i])]
+//@   ensures inBig(bigv[res.i])
+
+//@ func (BigInt).Mul
+//@   props C41,C27,C26
+//@   panics_unless i.i != nil && i2.i != nil
+//@   modifies bigv
+//@   ensures res.i != nil && fresh(res.i) && bigv == old(bigv)[res.i := old(bigv[i.i]) * old(bigv[i2.i])]
+//@   ensures inBig(bigv[res.i])
+
+//@ func (BigInt).Quo
+//@   props C41,C27,C26
+//@   panics_unless i.i != nil && i2.i != nil
+//@   modifies bigv
+//@   panics_unless bigv[i2.i] != 0
+//@   ensures res.i != nil && fresh(res.i) && bigv == old(bigv)[res.i := go_div(old(bigv[i.i]), old(bigv[i2.i]))]
+
+//@ func (BigInt).Mod
+//@   props C41,C27,C31
+//@   panics_unless i.i != nil && i2.i != nil
+//@   modifies bigv
+//@   panics_unless bigv[i2.i] != 0
+//@   ensures result.i != nil && fresh(result.i) && bigv == old(bigv)[result.i := old(bigv[i.i]) % old(bigv[i2.i])]
+
+//@ func (BigInt).Neg
+//@   props C41
+//@   panics_unless i.i != nil
+//@   modifies bigv
+//@   ensures res.i != nil && fresh(res.i) && bigv == old(bigv)[res.i := 0 - old(bigv[i.i])]
+
+//@ func (BigInt).Sign
+//@   props C41
+//@   panics_unless i.i != nil
+//@   modifies nothing
+//@   ensures result == ite(bigv[i.i] < 0, 0 - 1, ite(bigv[i.i] == 0, 0, 1))
+
+//@ func (BigInt).LT
+//@   props C41,C27
+//@   panics_unless i.i != nil && i2.i != nil
+//@   modifies nothing
+//@   ensures result == (bigv[i.i] < bigv[i2.i])
+
+//@ func (BigInt).LTE
+//@   props C41
+//@   panics_unless i.i != nil && i2.i != nil
+//@   modifies nothing
+//@   ensures result == (bigv[i.i] <= bigv[i2.i])
+
+//@ func (BigInt).GT
+//@   props C41,C27
+//@   panics_unless i.i != nil && i2.i != nil
+//@   modifies nothing
+//@   ensures result == (bigv[i.i] > bigv[i2.i])
+
+//@ func (BigInt).GTE
+//@   props C41,C27
+//@   panics_unless i.i != nil && i2.i != nil
+//@   modifies nothing
+//@   ensures result == (bigv[i.i] >= bigv[i2.i])
+
+//@ func (BigInt).Equal
+//@   props C41
+//@   panics_unless i.i != nil && i2.i != nil
+//@   modifies nothing
+//@   ensures result == (bigv[i.i] == bigv[i2.i])
+
+//@ func (BigInt).IsZero
+//@   props C41
+//@   modifies nothing
+//@   ensures result == (i.i == nil || bigv[i.i] == 0)
